@@ -211,3 +211,51 @@ def bind_call(call: ast.Call, params: List[str], n_required: int, has_vararg: bo
     if missing:
         return f"missing required argument(s) {missing}"
     return None
+
+
+_REORDER = {"sorted", "reversed", "set", "frozenset"}
+
+
+def _dict_side(e):
+    """(dict text, 'keys'|'values'|'items', reordered?) when e enumerates one side of a dict"""
+    re_ = False
+    while isinstance(e, ast.Call) and isinstance(e.func, ast.Name) and e.func.id in (_REORDER | {"list", "tuple"}) and len(e.args) >= 1:
+        if e.func.id in _REORDER:
+            re_ = True
+        e = e.args[0]
+    if isinstance(e, ast.Call) and isinstance(e.func, ast.Attribute) and e.func.attr in ("keys", "values", "items") and not e.args:
+        return norm(e.func.value), e.func.attr, re_
+    if isinstance(e, (ast.Attribute, ast.Name)):
+        return norm(e), "keys", re_   # iterating a dict enumerates its keys
+    return None
+
+
+def check_parallel_lists(ctx, rule, funcs):
+    """A mapping sent as two parallel lists (keys / values, re-zipped by the reader) must enumerate both sides in the same
+    order: keys() and values() of one dict agree, but not after one side alone went through sorted() / reversed() / set()."""
+    n = 0
+    for f in funcs:
+        stores = {}
+        for a in ast.walk(f.node):
+            if isinstance(a, ast.Assign) and isinstance(a.targets[0], ast.Subscript) and isinstance(a.targets[0].slice, ast.Constant):
+                side = _dict_side(a.value)
+                if side:
+                    stores.setdefault(side[0], []).append((a, side))
+        # single traversal: `ks, vs = zip(*D.items())` is aligned by construction
+        for a in ast.walk(f.node):
+            if isinstance(a, ast.Assign) and isinstance(a.targets[0], ast.Tuple) and len(a.targets[0].elts) == 2 and isinstance(a.value, ast.Call) and isinstance(a.value.func, ast.Name) \
+                    and a.value.func.id == "zip" and len(a.value.args) == 1 and isinstance(a.value.args[0], ast.Starred):
+                inner = a.value.args[0].value
+                if isinstance(inner, ast.Call) and isinstance(inner.func, ast.Attribute) and inner.func.attr == "items":
+                    n += 1
+                    ctx.ok(rule, f"{f.qualname}: keys and values of `{norm(inner.func.value)}` come from one traversal", f, a)
+        for d, lst in stores.items():
+            kinds = {s[1] for _, s in lst}
+            if not ({"keys", "values"} <= kinds):
+                continue
+            n += 1
+            re_flags = {s[2] for _, s in lst}
+            bad = next((a for a, s in lst if s[2]), None)
+            ctx.check(len(re_flags) == 1 and True not in re_flags or all(s[2] is False for _, s in lst), rule, f"{f.qualname}: keys and values of `{d}` are listed in the same order", f, bad or lst[0][0],
+                      f"the reader pairs the two lists position by position: re-ordering one side of `{d}` alone attaches every value to another key")
+    return n
